@@ -512,6 +512,201 @@ def rule_clospat(item, pc, annotations=None):
         i += 1
 
 
+def closures_of(item):
+    """(open_bar, close_bar) token indices of closure parameter lists `|...|` in body order.  A `|` opens a closure when
+    the previous significant token cannot end an expression or a pattern (`(`, `,`, `=`, `{`, `;`, `move`, `return`)."""
+    src, t = item.src, item.src.toks
+    res = []
+    i = item.body_open + 1
+    while i < item.body_close:
+        if t[i].text == "|":
+            p = src.prev_sig(i)
+            if t[p].text in ("(", ",", "=", "{", ";", "move", "return", "=>"):
+                j = i + 1
+                while t[j].text != "|":
+                    if t[j].text in OPEN:
+                        j = src.match(j)
+                    j += 1
+                res.append((i, j))
+                i = j
+        i += 1
+    return res
+
+
+def splice_cspec(item, pc, ordinal, text):
+    """R-SPLICE (closure specification): `|p| BODY` -> `|p| <text> { BODY }` where <text> is `-> (r: T) requires .. ensures ..`.
+    Braces are added only when BODY is not already a block; a block around an expression does not change its value.
+    The closure must be an argument of a call (its body ends at the next `,` at depth 0 or at the call's `)`)."""
+    src, t = item.src, item.src.toks
+    cl = closures_of(item)
+    if ordinal < 1 or ordinal > len(cl):
+        raise ExtractError(f"`{item.name}`: closure #{ordinal} not found (function has {len(cl)} closures)")
+    (a, b) = cl[ordinal - 1]
+    body_s = src.sig(b + 1)
+    if t[body_s].text == "-" and t[body_s + 1].text == ">":
+        raise ExtractError(f"`{item.name}`: closure #{ordinal} already has a return type")
+    # end of the closure body: first `,` / `)` / `;` at depth 0
+    j = body_s
+    while True:
+        if t[j].text in OPEN:
+            j = src.match(j) + 1
+            continue
+        if t[j].text in (",", ")", ";") or j >= item.body_close:
+            break
+        j += 1
+    body_e = src.prev_sig(j)
+    braced = t[body_s].text == "{" and src.match(body_s) == body_e
+    note = f"closure #{ordinal} specification"
+    if braced:
+        pc.insert(t[body_s].s, " " + text.strip() + " ", "R-SPLICE", note)
+    else:
+        pc.insert(t[body_s].s, " " + text.strip() + " { ", "R-SPLICE", note + " (body braced)")
+        pc.insert(t[body_e].e, " }", "R-SPLICE")
+
+
+def closure_extent(item, cl):
+    """(body_start_tok, body_end_tok) of the closure whose parameter bars are cl=(a, b)"""
+    src, t = item.src, item.src.toks
+    (a, b) = cl
+    body_s = src.sig(b + 1)
+    j = body_s
+    while True:
+        if t[j].text in OPEN:
+            j = src.match(j) + 1
+            continue
+        if t[j].text in (",", ")", ";") or j >= item.body_close:
+            break
+        j += 1
+    return body_s, src.prev_sig(j)
+
+
+def splice_cspec_text(item, pc, literal, text):
+    """R-SPLICE (closure specification selected by the closure's own text): every closure of the function whose token
+    text (parameters and body, whitespace/comments ignored) equals `literal` receives the specification `text`.
+    Returns the number of closures annotated (zero is allowed: the closure may have been edited away)."""
+    src, t = item.src, item.src.toks
+    want = norm_text(literal)
+    n = 0
+    for k, cl in enumerate(closures_of(item)):
+        body_s, body_e = closure_extent(item, cl)
+        if norm_tokens(src, cl[0], body_e + 1) != want:
+            continue
+        if t[body_s].text == "-" and t[body_s + 1].text == ">":
+            raise ExtractError(f"`{item.name}`: closure already has a return type")
+        braced = t[body_s].text == "{" and src.match(body_s) == body_e
+        note = "closure specification (selected by closure text)"
+        if braced:
+            pc.insert(t[body_s].s, " " + text.strip() + " ", "R-SPLICE", note)
+        else:
+            pc.insert(t[body_s].s, " " + text.strip() + " { ", "R-SPLICE", note + " (body braced)")
+            pc.insert(t[body_e].e, " }", "R-SPLICE")
+        if not hasattr(pc, "annotated_closures"):
+            pc.annotated_closures = set()
+        pc.annotated_closures.add(cl[0])
+        n += 1
+    return n
+
+
+def splice_cspec_self(item, pc, methods, rtype):
+    """R-SPLICE (self-specification of a closure): every closure that is the only argument of a call `.m(|p| BODY)` with m
+    in `methods` receives `-> (r: T) ensures r == (BODY)`: "the value of an expression is that expression".  Verus
+    itself rejects a BODY that is not a specification-mode expression (exec calls, assignments), which is exit 2.  Unlike a
+    specification written in the template, this one follows every edit of BODY, so an edit that changes what the closure
+    computes surfaces where the function's postcondition no longer follows."""
+    src, t = item.src, item.src.toks
+    n = 0
+    for cl in closures_of(item):
+        p = src.prev_sig(cl[0])
+        if t[p].text != "(":
+            continue
+        m = src.prev_sig(p)
+        if not (t[m].kind == "ident" and t[m].text in methods and t[src.prev_sig(m)].text == "."):
+            continue
+        body_s, body_e = closure_extent(item, cl)
+        if src.sig(body_e + 1) != src.match(p) and not (t[src.sig(body_e + 1)].text == "," and src.sig(src.sig(body_e + 1) + 1) == src.match(p)):
+            continue  # not the only argument
+        off = t[cl[0]].s
+        if any(s0 <= off < e0 for (s0, e0, _) in pc.dels):
+            continue
+        if t[body_s].text == "-" and t[body_s + 1].text == ">":
+            raise ExtractError(f"`{item.name}`: closure already has a return type")
+        body = src.text[t[body_s].s:t[body_e].e]
+        spec = f" -> (r: {rtype}) ensures r == ({body}) "
+        braced = t[body_s].text == "{" and src.match(body_s) == body_e
+        note = "closure self-specification `ensures r == (BODY)`"
+        if braced:
+            pc.insert(t[body_s].s, spec, "R-SPLICE", note)
+        else:
+            pc.insert(t[body_s].s, spec + "{ ", "R-SPLICE", note)
+            pc.insert(t[body_e].e, " }", "R-SPLICE")
+        if not hasattr(pc, "annotated_closures"):
+            pc.annotated_closures = set()
+        pc.annotated_closures.add(cl[0])
+        n += 1
+    return n
+
+
+def require_all_closures_specified(item, pc):
+    """Used with cspec_text: a closure left without a specification (its text is not in the template's table) makes the
+    unit undecided (exit 2) -- Verus would know nothing about its result, and a failed proof would not be a refutation."""
+    src, t = item.src, item.src.toks
+    done = getattr(pc, "annotated_closures", set())
+    for cl in closures_of(item):
+        off = t[cl[0]].s
+        if any(s <= off < e for (s, e, _) in pc.dels):
+            continue  # moved away by R-XEXPR
+        if cl[0] not in done:
+            body_s, body_e = closure_extent(item, cl)
+            raise ExtractError(f"`{item.name}`: closure without a specification in the template (line {src.line_of(off)}): "
+                               f"{norm_tokens(src, cl[0], body_e + 1)[:120]}")
+
+
+def norm_text(text):
+    """token text of a Rust fragment with whitespace and comments removed (string literals keep their spaces)"""
+    return "".join(x.text for x in tokenize(text) if x.kind not in ("ws", "comment"))
+
+
+def norm_tokens(src, lo, hi):
+    return "".join(x.text for x in src.toks[lo:hi] if x.kind not in ("ws", "comment"))
+
+
+def rule_xexpr(item, pc, literal, call_text):
+    """R-XEXPR: one sub-expression, identified by its exact token text (whitespace and comments ignored), is replaced by
+    `call_text`, a call of an `external_body` function that the unit declares with `//@xexprfn`: the body of that
+    function is the removed text, verbatim; its signature is written in the template and checked by rustc against the
+    verbatim body; its contract is ASSUMED (listed).  Used where an expression goes through a std function for which
+    Verus has no specification and accepts none (provided trait methods such as Iterator::partition).
+    Returns the removed source text."""
+    src, t = item.src, item.src.toks
+    want = norm_text(literal)
+    sigs = [i for i in range(item.body_open + 1, item.body_close) if t[i].kind not in ("ws", "comment")]
+    hits = []
+    for a_i, a in enumerate(sigs):
+        if not want.startswith(t[a].text):
+            continue
+        acc = ""
+        for b in sigs[a_i:]:
+            acc += t[b].text
+            if not want.startswith(acc):
+                break
+            if acc == want:
+                hits.append((a, b))
+                break
+    if len(hits) != 1:
+        raise ExtractError(f"R-XEXPR: `{item.name}`: expression text must occur exactly once, found {len(hits)}: {literal[:80]!r}")
+    a, b = hits[0]
+    # brackets inside the window must be balanced within it
+    for k in range(a, b + 1):
+        if t[k].text in OPEN or t[k].text in CLOSE:
+            m = src.match(k)
+            if not (a <= m <= b):
+                raise ExtractError("R-XEXPR: expression window is not bracket-balanced")
+    removed = src.text[t[a].s:t[b].e]
+    pc.delete(t[a].s, t[b].e, "R-XEXPR", "expression moved verbatim into an external_body function (contract assumed)")
+    pc.insert(t[a].s, call_text, "R-XEXPR")
+    return removed
+
+
 def loop_body_open(src, kw_idx):
     t = src.toks
     j = kw_idx + 1
